@@ -29,10 +29,17 @@ class DeFactoCookiePolicy(DefaultCookiePolicy):
         # section 5.4): never return it to subdomains of the setting host.
         kwargs.setdefault('strict_ns_domain',
                           DefaultCookiePolicy.DomainStrictNonDomain)
+        # Country-code second level domains such as .co.uk are not a
+        # domain that a host may set cookies for.
+        kwargs.setdefault('strict_domain', True)
         DefaultCookiePolicy.__init__(self, *args, **kwargs)
 
     def set_ok(self, cookie, request):
         if not DefaultCookiePolicy.set_ok(self, cookie, request):
+            return False
+
+        if cookie.domain_specified and not self._is_domain_attribute_ok(
+                cookie, request):
             return False
 
         try:
@@ -58,6 +65,28 @@ class DeFactoCookiePolicy(DefaultCookiePolicy):
             return False
 
         return True
+
+    @classmethod
+    def _is_domain_attribute_ok(cls, cookie, request):
+        '''Return whether the Domain attribute is not a mere text suffix.
+
+        The base class matches the attribute as a suffix of the host name:
+        ``.3.4`` for the host 10.0.3.4, ``.com.`` for example.com. and
+        ``.local`` for any host name without a dot.
+        '''
+        host = http.cookiejar.request_host(request).rstrip('.')
+        domain = cookie.domain.lstrip('.').rstrip('.').lower()
+
+        if domain == host:
+            return True
+
+        if '.' not in host or ':' in host or \
+                http.cookiejar.IPV4_RE.search(host):
+            # IP addresses and unqualified names only match themselves
+            return False
+
+        # A top level domain
+        return '.' in domain
 
     def count_cookies(self, domain):
         '''Return the number of cookies for the given domain.'''
